@@ -112,3 +112,53 @@ theorem bip143_commits_amount (H : Bytes → Bytes) (t : Tx) (i : Nat) (sc : Byt
   omega
 
 end Btc.C01
+
+namespace Btc.C01
+open Btc
+
+/-- T4 (BIP143, SIGHASH_NONE): no output and no other input's sequence is committed — the
+sequence hash and the output hash are 32 zero bytes. -/
+theorem bip143Preimage_none (H : Bytes → Bytes) (t : Tx) (i : Nat) (sc : Bytes) (amount : Nat) (inp : TxIn)
+    (hi : t.ins[i]? = some inp) :
+    bip143Preimage H t i sc amount SIGHASH_NONE = some (
+      leBytes t.version 4 ++ H (t.ins.flatMap fun x => x.prevTxid ++ leBytes x.vout 4) ++
+      List.replicate 32 0 ++ inp.prevTxid ++ leBytes inp.vout 4 ++
+      serVarBytes sc ++ leBytes amount 8 ++ leBytes inp.sequence 4 ++ List.replicate 32 0 ++
+      leBytes t.locktime 4 ++ leBytes SIGHASH_NONE 4) := by
+  unfold bip143Preimage
+  rw [hi]
+  have hb : SIGHASH_NONE % 32 = 2 := by decide
+  have ha : ¬ (SIGHASH_NONE / 128 % 2 = 1) := by decide
+  simp [hb, ha, SIGHASH_SINGLE, SIGHASH_NONE]
+
+/-- T5 (BIP143, SIGHASH_SINGLE): exactly the output with the index of the input is committed
+(32 zero bytes when there is none); the other inputs' sequences are not. -/
+theorem bip143Preimage_single (H : Bytes → Bytes) (t : Tx) (i : Nat) (sc : Bytes) (amount : Nat) (inp : TxIn)
+    (hi : t.ins[i]? = some inp) :
+    bip143Preimage H t i sc amount SIGHASH_SINGLE = some (
+      leBytes t.version 4 ++ H (t.ins.flatMap fun x => x.prevTxid ++ leBytes x.vout 4) ++
+      List.replicate 32 0 ++ inp.prevTxid ++ leBytes inp.vout 4 ++
+      serVarBytes sc ++ leBytes amount 8 ++ leBytes inp.sequence 4 ++
+      (match t.outs[i]? with | some o => H (serOut o) | none => List.replicate 32 0) ++
+      leBytes t.locktime 4 ++ leBytes SIGHASH_SINGLE 4) := by
+  unfold bip143Preimage
+  rw [hi]
+  have hb : SIGHASH_SINGLE % 32 = 3 := by decide
+  have ha : ¬ (SIGHASH_SINGLE / 128 % 2 = 1) := by decide
+  cases ho : t.outs[i]? <;> simp [hb, ha, SIGHASH_SINGLE, SIGHASH_NONE, ho]
+
+/-- T6 (BIP143, ANYONECANPAY | ALL): the other inputs are not committed at all (both input
+hashes are zero), all outputs are. -/
+theorem bip143Preimage_all_acp (H : Bytes → Bytes) (t : Tx) (i : Nat) (sc : Bytes) (amount : Nat) (inp : TxIn)
+    (hi : t.ins[i]? = some inp) :
+    bip143Preimage H t i sc amount 0x81 = some (
+      leBytes t.version 4 ++ List.replicate 32 0 ++ List.replicate 32 0 ++ inp.prevTxid ++ leBytes inp.vout 4 ++
+      serVarBytes sc ++ leBytes amount 8 ++ leBytes inp.sequence 4 ++ H (t.outs.flatMap serOut) ++
+      leBytes t.locktime 4 ++ leBytes 0x81 4) := by
+  unfold bip143Preimage
+  rw [hi]
+  have hb : 0x81 % 32 = 1 := by decide
+  have ha : 0x81 / 128 % 2 = 1 := by decide
+  simp [hb, ha, SIGHASH_SINGLE, SIGHASH_NONE]
+
+end Btc.C01
